@@ -200,7 +200,7 @@ def r3(F, rep):
         mods = [t for t in facts if t[0] == "cmp" and t[1] == "==" and t[3] == "0" and "% " in t[2] and "cv_traj_freq" in t[2]
                 and "colvarmodule::step_absolute()" in t[2] and "step_relative" not in t[2]]
         other = [(X.text(f.nodes[c], f), p) for c, p in f.cfg.real_guards(d)
-                 if "cv_traj_freq" not in X.key(f.nodes[c], f) and "cv_traj_os" not in X.key(f.nodes[c], f)]
+                 if "cv_traj_freq" not in X.key(f.nodes[c], f, res) and "cv_traj_os" not in X.key(f.nodes[c], f, res)]
         rep.add("C19-R3", "data|schedule", f.loc(d), "the data line is written %s" % (
             "exactly when step_absolute() %% cv_traj_freq == 0" if mods and not other else "under a different condition: %s %s" % (mods, other)),
             bool(mods) and not other, func=f.q)
